@@ -184,12 +184,7 @@ func c05Run(c *vcore.Ctx) *vcore.Violation {
 					break
 				}
 			}
-			env, err := b.Build()
-			for attempt := 0; err != nil && strings.Contains(err.Error(), "i/o timeout") && attempt < 3; attempt++ {
-				// Build's 3 s ping deadline can expire on a fully loaded machine: not a property matter
-				time.Sleep(300 * time.Millisecond)
-				env, err = b.Build()
-			}
+			env, err := kBuildRetry(&b)
 			if err != nil {
 				res = runner.Result{Status: runner.StatusRunnerError, Error: "container build: " + err.Error()}
 				return
